@@ -118,3 +118,55 @@ VARIANTS = [
       "return max(0.0, min(1.0, result / runs))",
       "return min(1.0, max(0.0, result / runs))", "silent"),
 ]
+
+VARIANTS += [
+    V("phase1-piece-may-be-empty", D,
+      "                    if 0 < cut_position < item_size_in_dim:  # Sanity",
+      "                    if 0 <= cut_position < item_size_in_dim:  # Sanity",
+      "fire", "D17.5"),
+    V("phase2-shrinks-to-zero", D,
+      "                    if 0 < cut_position < item_size_in_dim:\n"
+      "                        # We cut away",
+      "                    if 0 < cut_position <= item_size_in_dim:\n"
+      "                        # We cut away", "fire", "D17.5"),
+    V("cut-dimension-leaves-01", D,
+      "                    cut_dimension = 1 - cut_dimension\n"
+      "                    step += 1",
+      "                    cut_dimension = 1 + cut_dimension\n"
+      "                    step += 1", "fire", "D17.8"),
+    V("search-direction-two", D,
+      "            sel_dir: int = -1 if selector < 0.0 else 1",
+      "            sel_dir: int = -1 if selector < 0.0 else 2", "fire",
+      "D17.8"),
+    V("modulus-may-be-zero", D,
+      "                if cut_modulus > 0:  # Otherwise, we cannot cut the "
+      "item.", "                if cut_modulus >= 0:  # Otherwise", "fire",
+      "D17.8"),
+    V("bounded-search-never-ends", D,
+      "                    step += 1  # If we tried everything",
+      "                    pass  # If we tried everything", "fire", "D17.8"),
+    V("merge-multiplicity-off", D,
+      "            cur_item.append(hi - lo)  # We now have",
+      "            cur_item.append(hi - lo + 1)  # We now have", "fire",
+      "D17.7"),
+    V("merge-duplicates-kept", D,
+      "                del items[hi]\n", "", "fire", "D17.7"),
+    V("result-not-delivered-when-empty", D,
+      "            y.append(res)  # add the instance to it.",
+      "            pass", "fire", "D17.7"),
+    V("instance-arguments-swapped", D,
+      "            self.space.inst_name, bin_width, bin_height, items)",
+      "            self.space.inst_name, bin_width, items, bin_height)",
+      "fire", "D17.2"),
+    V("second-piece-never-appended", D,
+      "                        items.append(cur_item)\n", "", "fire",
+      "D17.1"),
+    V("silent-selection-formula-simplified", D,
+      "            sel_i: int = ((int(cur_n_items * selector) % cur_n_items)\n"
+      "                          + cur_n_items) % cur_n_items",
+      "            sel_i: int = int(cur_n_items * selector) % cur_n_items",
+      "silent", "", "Python's % already yields 0..n-1"),
+    V("silent-phase2-stops-after-one-round", D,
+      "            while step < 2:  # This time", "            while step < 1:"
+      "  # This time", "silent", "", "fewer attempts only leave more slack"),
+]
